@@ -63,7 +63,21 @@ func run(v valgrid.Val) {
 	case err != nil:
 		h.Violate(sig+"decode-error|"+v.Cls, fmt.Sprintf("%s: GoValue(%x) returned %v", v, trunc(want), err), v)
 	default:
-		if ok, why := valgrid.SameValue(v, got, valgrid.Tolerance(v)); !ok {
+		tol := valgrid.Tolerance(v)
+		if tol == time.Second/300 {
+			// the bytes name a tick; when the grid value IS that tick's time (not merely a time
+			// inside it) the server meant exactly k/300 s: a decoder working in milliseconds may
+			// lose the sub-millisecond part, nothing more, and nothing at all when k/300 s is a
+			// whole number of milliseconds.
+			k := (v.Ns*300 + 500000000) / 1000000000
+			if tdsval.TickNanos(k) == v.Ns {
+				tol = time.Millisecond
+				if k%3 == 0 {
+					tol = 0
+				}
+			}
+		}
+		if ok, why := valgrid.SameValue(v, got, tol); !ok {
 			h.Violate(sig+"decode-differs|"+v.Cls, fmt.Sprintf("%s: conforming bytes %x decode wrongly: %s", v, trunc(want), why), v)
 		} else {
 			h.Outcome("ok-" + v.K)
